@@ -2,18 +2,10 @@
 //! usage: rgh KIND < cases > results        (same value syntax as the OCaml driver)
 mod val;
 mod rgcfg;
-mod c19;
+include!("mods.rs");
 
 use std::io::{BufRead, Write};
 use val::Val;
-
-fn dispatch(kind: u32, v: &Val) -> Val {
-    match kind {
-        1901 => c19::run_interpolate(v),
-        1902 => c19::run_oracle(v),
-        _ => Val::L(vec![]),
-    }
-}
 
 fn main() {
     let kind: u32 = std::env::args().nth(1).expect("kind").parse().expect("kind number");
